@@ -316,6 +316,14 @@ async fn client_event_loop<T>(client_impl: &mut MqttClientImpl, async_state: &mu
         }
     }
 
+    // Refuse further submissions and discard everything that was submitted before this point (dropping
+    // an operation resolves its result with an error).  Dropping the receiver alone is not enough: an
+    // operation whose send raced with the drop could be left inside the channel, its result pending
+    // until the last client handle went away.  After close(), recv() only returns None once every send
+    // that was accepted has been received.
+    async_state.operation_receiver.close();
+    while async_state.operation_receiver.recv().await.is_some() {}
+
     info!("Tokio client loop exiting");
 }
 
